@@ -3,10 +3,11 @@
 // A value is built and encoded (json and msgpack, decoded again), then a nested hash or array of
 // it is changed IN PLACE through the real builtins (hset / hdel on a hash, aset on an array, at
 // any depth, also at the top), and the same object is encoded again; this is repeated. After
-// each change the case line describes the object as it now is (read off the real object), so
-// model and specification are those of the current value alone:
+// each change the value the object must now have is computed from the initial value and the
+// changes by the model (Coq run_ops: an existing key keeps its place, a new key goes last), so
+// model and specification are those of that value:
 //
-//	E <current value> ~ <initial value> ~ <op>*        (everything after the first "~" is for replay)
+//	E <initial value> ~ <op>*        (the current value is computed by the model of the changes)
 //	op   := P<n> step*n ( s key value | d key | a<idx> value )
 //	step := key (k<cps> | q<cps>) | i<idx>
 package main
@@ -322,17 +323,84 @@ func (g *gen) randomOp(cur *gv) (mop, bool) {
 	return mop{path: path, kind: 's', key: gkey{strKeys, mutKeys[r.Intn(len(mutKeys))]}, val: newVal()}, true
 }
 
-func mutInput(cur, v0 *gv, ops []mop) string {
+func mutInput(v0 *gv, ops []mop) string {
 	var sb strings.Builder
 	sb.WriteString("E ")
-	cur.input(&sb)
-	sb.WriteString(" ~ ")
 	v0.input(&sb)
 	sb.WriteString(" ~")
 	for _, o := range ops {
 		o.write(&sb)
 	}
 	return sb.String()
+}
+
+// applyGv: what the change means for the data (the harness's own reading, for tags and shrinking;
+// the verdict uses the extracted run_ops): an existing key keeps its place, a new key goes last.
+func applyGv(v *gv, o mop, depth int) (*gv, bool) {
+	if depth < len(o.path) {
+		s := o.path[depth]
+		c := clone(v)
+		if s.isKey {
+			if v.kind != 'H' {
+				return nil, false
+			}
+			for i, k := range v.keys {
+				if k == s.key {
+					sub, ok := applyGv(v.vals[i], o, depth+1)
+					if !ok {
+						return nil, false
+					}
+					c.vals[i] = sub
+					return c, true
+				}
+			}
+			return nil, false
+		}
+		if v.kind != 'A' || s.idx >= len(v.arr) {
+			return nil, false
+		}
+		sub, ok := applyGv(v.arr[s.idx], o, depth+1)
+		if !ok {
+			return nil, false
+		}
+		c.arr[s.idx] = sub
+		return c, true
+	}
+	c := clone(v)
+	switch o.kind {
+	case 's':
+		if v.kind != 'H' {
+			return nil, false
+		}
+		for i, k := range v.keys {
+			if k == o.key {
+				c.vals[i] = o.val
+				return c, true
+			}
+		}
+		c.keys = append(c.keys, o.key)
+		c.vals = append(c.vals, o.val)
+		return c, true
+	case 'd':
+		if v.kind != 'H' {
+			return nil, false
+		}
+		for i, k := range v.keys {
+			if k == o.key {
+				c.keys = append(c.keys[:i:i], c.keys[i+1:]...)
+				c.vals = append(c.vals[:i:i], c.vals[i+1:]...)
+				return c, true
+			}
+		}
+		return c, true
+	case 'a':
+		if v.kind != 'A' || o.idx >= len(v.arr) {
+			return nil, false
+		}
+		c.arr[o.idx] = o.val
+		return c, true
+	}
+	return nil, false
 }
 
 // mutation runs one history: observe, then (change, observe)*; returns the first failure signature
@@ -347,19 +415,27 @@ func (r *runner) mutation(v0 *gv, ops []mop, record bool, tags ...string) (sig s
 		return "", 0
 	}
 	observe(r.env, top) // the encodings made before any change
+	cur := start
 	for i, o := range ops {
 		if !r.apply(top, o) {
 			return sig, applied
 		}
-		applied = i + 1
-		cur, ok := fromSexp(top)
+		next, ok := applyGv(cur, o, 0)
 		if !ok {
 			return sig, applied
 		}
+		// the op values as actually built (floats, invalid bytes) are read back the same way
+		cur = next
+		applied = i + 1
 		ob := observe(r.env, top)
 		s := failure(cur, ob)
+		if real, ok := fromSexp(top); !ok || real.String() != cur.String() {
+			if s == "" {
+				s = "object-is-not-the-updated-value"
+			}
+		}
 		if record {
-			input := mutInput(cur, start, ops[:i+1])
+			input := mutInput(start, ops[:i+1])
 			if !r.seen[input] {
 				r.seen[input] = true
 				t := append([]string{"mutation-history", fmt.Sprintf("mutation:%c:depth%d", o.kind, len(o.path))}, tags...)
